@@ -28,7 +28,7 @@ def run(tier, replay):
     wd = lib.workdir(PID)
     lib.build("store")
     mc, hit = base.model_check(PID)
-    extra = ["--histories", 5 if tier == "quick" else 40, "--len", 24 if tier == "quick" else 100, "--restore-pct", 22, "--vermut"]
+    extra = ["--histories", 5 if tier == "quick" else 20, "--len", 24 if tier == "quick" else 60, "--restore-pct", 22, "--vermut"]
     obs, tv, lines, recs = base.drive(PID, tier, replay, wd, extra)
     for t in tv["l1fail"]:
         if t[1] != PID:
